@@ -27,17 +27,23 @@ Domain (= the conformance conditions of the statement, read narrowly; function
   p2 non-empty when V is non-empty (LAS: the first blank after the dot ends the unit)
   a time-like value directly followed by ':' and two digits (p3 = p4 = '' and D
      starting with two digits) is left out: that line is ambiguous on its face.
-  no-period form: the line has no '.' before the first ':'; result (M, '', V, '').
+  no-period form: M p1 ':' p4 V, no '.' before the first ':'; result (M, '', V, '');
+     V may hold '.' and ':' as in the documented examples (`HOLE DIA :85.7`,
+     `TIME :14:00:32`), in ~Curves again no '..'.
 
 Left out on purpose (not in the statement): lines with no colon at all, units
-starting with '.', mnemonics with '.', purely numeric units not followed by
-`blank + suffix`, tz-offset colons inside ~Parameter.
+starting/ending with '.' or ':', mnemonics with '.', units of digits/dots only
+unless followed by `blank + suffix`, tz-offset colons inside ~Parameter, tabs
+inside fields.
+
+Tiers: quick = finite sweeps (each a full product, see `bound`), 4 processes;
+thorough = larger sweeps + hypothesis + seeded sampling over the full character
+classes, 14 processes.  Failures are classified from the input alone (klass_of).
 """
 import itertools
 import os
 import re
 import sys
-import time
 from array import array
 
 sys.path.insert(0, os.path.dirname(os.path.abspath(__file__)))
@@ -455,17 +461,17 @@ def run_task(args):
         # mnemonic x unit
         M = m_all()[part]
         for U in u_all():
-            for V in (["", "v", "1.5", "a b"] if big else ["", "v"]):
+            for V in (["", "v", "a 11"] if big else ["", "v"]):
                 pads = few_pads(V, big)
                 if not big:
                     pads = pads[:1] + pads[3:]
-                for D in (["", "d", "11 d"] if big else ["d"]):
+                for D in (["", "11 d"] if big else ["d"]):
                     for p in pads:
                         acc.run_case("main", M, U, V, D, p, SECS)
     elif sweep == "T":
         # clock times, all 24 hours, with and without dates; colon-free and colon-bearing descriptions
         h = HOURS[part]
-        mins = ["00", "07", "30", "59"] if big else ["00", "59"]
+        mins = ["00", "30", "59"] if big else ["00", "59"]
         secs = ["", "00", "59"] if big else ["", "59"]
         dates = DATEFORMS if big else DATEFORMS[:3]
         pk2 = [PAD[k] for k in (("b", "B", "t", "x") if big else ("b", "t", "x"))]
@@ -500,7 +506,7 @@ def run_task(args):
             for M in (M_REP if big else M_REP[:2]):
                 for V in (["", "v", "5", "1.5", "a b", "lbf"] if big else ["", "v", "1.5", "a b"]):
                     for D in (["", "d", "(RT)", "11 x"] if big else ["", "(RT)", "11 x"]):
-                        for p1 in (pk[:3] if big else pk[:2]):
+                        for p1 in pk[:2]:
                             for p2, p3, p4 in itertools.product(pk, repeat=3):
                                 acc.run_case("main", M, U, V, D, ("", p1, p2, p3, p4, " "), SECS)
     elif sweep == "E2E":
@@ -682,7 +688,7 @@ HYP_SEED = [0]
 def hyp_task(acc, part, tier):
     from hypothesis import given, settings, seed as hseed, strategies as st, HealthCheck
 
-    n_examples = int(os.environ.get("C04_HYP_EXAMPLES", "8000"))
+    n_examples = int(os.environ.get("C04_HYP_EXAMPLES", "4000"))
     pad = st.one_of(st.sampled_from(PAD_CHOICES), st.text(" \t", max_size=5))
     pads = st.tuples(pad, pad, pad, pad, pad, pad)
     edge = st.text(FULL, min_size=1, max_size=1)
@@ -723,7 +729,7 @@ def rnd_task(acc, part, tier):
     """plain seeded sampling of the same classes (much cheaper per case than hypothesis)"""
     import random
     rng = random.Random(HYP_SEED[0] * 7919 + part)
-    n = int(os.environ.get("C04_RND_CASES", "60000"))
+    n = int(os.environ.get("C04_RND_CASES", "40000"))
     classes = [LETTERS, DIGITS, PUNCT, QUOTES, BRACKETS, NONASCII]
 
     def alpha():
@@ -816,7 +822,7 @@ def build_run(tier, seed):
               + ("" if quick else "; B3 = B1's triples under all 5^3 inner paddings; HYP hypothesis (%d x %s examples) and RND seeded sampling "
                  "(%d x %s cases) over the full classes (ASCII letters, digits, punctuation, quotes, brackets, non-ASCII letters), fields <= 10, "
                  "each drawn case under 5 padding variants x 6 sections"
-                 % (HYP_PARTS, os.environ.get("C04_HYP_EXAMPLES", "8000"), RND_PARTS, os.environ.get("C04_RND_CASES", "60000"))))
+                 % (HYP_PARTS, os.environ.get("C04_HYP_EXAMPLES", "4000"), RND_PARTS, os.environ.get("C04_RND_CASES", "40000"))))
     tasks = [(s, i, tier) for s, i in tasks_for(tier)]
     tasks += [("E2E", i, tier) for i in range(E2E_PARTS)]
     if not quick:
